@@ -120,7 +120,11 @@ func collect(r *lib.Rng, m protoreflect.Message, prefix string, path []protorefl
 			cur := append([]byte(nil), m.Get(fd).Bytes()...)
 			if len(cur) > 0 {
 				pos, bit := r.Intn(len(cur)), byte(1)<<uint(r.Intn(8))
-				add("flip-bit", func(m protoreflect.Message) {
+				fk := "flip-bit"
+				if pos == 0 {
+					fk = "flip-bit-byte0"
+				}
+				add(fk, func(m protoreflect.Message) {
 					b := append([]byte(nil), cur...)
 					b[pos] ^= bit
 					m.Set(fd, protoreflect.ValueOfBytes(b))
@@ -135,7 +139,11 @@ func collect(r *lib.Rng, m protoreflect.Message, prefix string, path []protorefl
 					b[len(b)-1] ^= 0x01
 					m.Set(fd, protoreflect.ValueOfBytes(b))
 				})
-				add("truncate", func(m protoreflect.Message) { m.Set(fd, protoreflect.ValueOfBytes(cur[:len(cur)-1])) })
+				tk := "truncate"
+				if cur[len(cur)-1] == 0 {
+					tk = "truncate-trailing-zero"
+				}
+				add(tk, func(m protoreflect.Message) { m.Set(fd, protoreflect.ValueOfBytes(cur[:len(cur)-1])) })
 				if len(cur) > 1 {
 					add("clear", func(m protoreflect.Message) { m.Clear(fd) })
 				}
